@@ -402,7 +402,7 @@ pub fn minimise(prop: &dyn Property, mut best: Failing, extra_seeds: usize, budg
                 };
                 runs += 1;
                 let j = judge(prop, &c, kind.clone(), seed, best.hash_seed, &mut scratch);
-                if let Some(v) = j.verdict.violations.iter().find(|v| v.property == best.violation.property && v.rule == best.violation.rule) {
+                if let Some(v) = j.verdict.violations.iter().find(|v| v.property == best.violation.property && v.rule == best.violation.rule && v.signature == best.violation.signature) {
                     best = Failing { sc: c.clone(), kind, sched_seed: seed, hash_seed: best.hash_seed, exec: j.exec, violation: v.clone() };
                     progress = true;
                     break 'cand;
@@ -422,7 +422,7 @@ pub fn minimise(prop: &dyn Property, mut best: Failing, extra_seeds: usize, budg
             runs += 1;
             let seed = mix2(best.sched_seed, 1000 + k as u64 * 10 + s);
             let j = judge(prop, &best.sc, kind.clone(), seed, best.hash_seed, &mut scratch);
-            if let Some(v) = j.verdict.violations.iter().find(|v| v.property == best.violation.property && v.rule == best.violation.rule) {
+            if let Some(v) = j.verdict.violations.iter().find(|v| v.property == best.violation.property && v.rule == best.violation.rule && v.signature == best.violation.signature) {
                 if j.exec.sched.context_switches < best.exec.sched.context_switches {
                     best = Failing { sc: best.sc.clone(), kind: kind.clone(), sched_seed: seed, hash_seed: best.hash_seed, exec: j.exec, violation: v.clone() };
                 }
